@@ -98,6 +98,9 @@ pub struct BuildCase {
     /// `opts`, with other values) and built once; then the setters are called again with the final `opts` and the
     /// build under test is made. Setters are last-value-wins, so the result must equal that of a fresh builder.
     pub warm: Option<Opts>,
+    /// After the warm-up build: true = every final setter is called again; false = only the setters whose value differs
+    /// from the warm-up's are called (calling a setter again with the value it already has must not matter).
+    pub resend: bool,
     /// Related predecessor: before the builder under test is even created, another builder is built on the same thread
     /// and dropped. 0 none; 1 same input at another level; 2 the input extended by a character of a wider class;
     /// 3 same length, other content, same options (its buffer is freed just before the input under test is allocated);
@@ -113,7 +116,7 @@ impl std::fmt::Debug for BuildCase {
     fn fmt(&self, f: &mut std::fmt::Formatter<'_>) -> std::fmt::Result {
         match &self.warm {
             None => write!(f, "BuildCase{{len={}, opts={:?}, input={}}}", self.input.len(), self.opts, short_bytes(&self.input)),
-            Some(w) => write!(f, "BuildCase{{len={}, opts={:?}, same builder first built with {:?}, input={}}}", self.input.len(), self.opts, w, short_bytes(&self.input)),
+            Some(w) => write!(f, "BuildCase{{len={}, opts={:?}, same builder first built with {:?} ({}), input={}}}", self.input.len(), self.opts, w, if self.resend { "then every setter called again" } else { "then only the changed setters called" }, short_bytes(&self.input)),
         }
     }
 }
@@ -128,7 +131,7 @@ pub fn short_bytes(b: &[u8]) -> String {
 
 impl BuildCase {
     pub fn new(input: Vec<u8>, opts: Opts) -> Self {
-        BuildCase { input, opts, warm: None, pred: 0 }
+        BuildCase { input, opts, warm: None, resend: true, pred: 0 }
     }
 
     /// The same case with a builder warm-up derived from `sel` (None for 3 values of `sel` out of 4). Only options
@@ -140,8 +143,15 @@ impl BuildCase {
         }
         let s = (sel >> 2) as usize;
         let o = &self.opts;
+        self.resend = (sel >> 11) & 1 == 0;
         let warm = Opts {
-            mode: if s & 1 == 0 { o.mode } else { None },
+            // the warm-up mode may be any mode, including one the input does not fit (that build then panics or fails
+            // and is ignored; the setter is overwritten afterwards)
+            mode: o.mode.and_then(|m| match (s ^ (s >> 4)) % 4 {
+                0 => Some(m),
+                1 => None,
+                k => Some(Mode::from_index((m as usize + k as usize - 1) % 3)),
+            }),
             level: o.level.and_then(|l| match (s >> 1) % 3 {
                 0 => None,
                 1 => Some(Level::from_index((l as usize + 1 + (s >> 3) % 3) % 4)),
@@ -173,6 +183,7 @@ impl BuildCase {
             "version": self.opts.version,
             "mask": self.opts.mask,
             "predecessor": self.pred,
+            "warm_resend_all": self.resend,
             "warm_builder": self.warm.as_ref().map(|w| json!({"mode": w.mode.map(|m| m.name()), "level": w.level.map(|l| l.name()), "version": w.version, "mask": w.mask})),
         })
     }
@@ -222,7 +233,8 @@ impl BuildCase {
             mask: w.get("mask").and_then(|x| x.as_u64()).map(|x| x as u8),
         });
         let pred = v.get("predecessor").and_then(|x| x.as_u64()).unwrap_or(0) as u8;
-        Some(BuildCase { input, opts: Opts { mode, level, version, mask }, warm, pred })
+        let resend = v.get("warm_resend_all").and_then(|x| x.as_bool()).unwrap_or(true);
+        Some(BuildCase { input, opts: Opts { mode, level, version, mask }, warm, resend, pred })
     }
 
     pub fn hash(&self) -> u64 {
@@ -301,7 +313,7 @@ impl BuildCase {
                 (v, self.opts.clone())
             }
         };
-        let p = BuildCase { input, opts, warm: None, pred: 0 };
+        let p = BuildCase { input, opts, warm: None, resend: true, pred: 0 };
         let _ = catch(move || {
             let b = p.builder();
             let r = b.build().map(|q| q.size);
@@ -329,17 +341,26 @@ impl BuildCase {
             // the warm-up build may succeed, fail or panic; only the build after it is under test
             let _ = catch(|| b.build().map(|q| q.size));
         }
+        let w = self.warm.clone().filter(|_| !self.resend).unwrap_or_default();
         if let Some(m) = self.opts.mode {
-            b.mode(f_mode(m));
+            if w.mode != Some(m) {
+                b.mode(f_mode(m));
+            }
         }
         if let Some(l) = self.opts.level {
-            b.ecl(f_level(l));
+            if w.level != Some(l) {
+                b.ecl(f_level(l));
+            }
         }
         if let Some(v) = self.opts.version {
-            b.version(f_version(v));
+            if w.version != Some(v) {
+                b.version(f_version(v));
+            }
         }
         if let Some(m) = self.opts.mask {
-            b.mask(f_mask(m));
+            if w.mask != Some(m) {
+                b.mask(f_mask(m));
+            }
         }
         b
     }
